@@ -9,6 +9,8 @@
          let mut output = File::create(origin)?;        <- the file is truncated HERE
          let mut input_pos = 0;
          for patch in patches {
+             [ if span.start() < input_pos || span.end() < span.start() || span.end() > input.len()
+                  { continue; } ]                                   <- only in the repaired version
              output.write_all(&input[input_pos..span.start()])?;   <- panics if input_pos > start or start > len
              output.write_all(patch.replacement().as_bytes())?;
              input_pos = span.end();
@@ -16,7 +18,9 @@
          output.write_all(&input[input_pos..])?;                   <- panics if input_pos > len
 
    A panic after `File::create` leaves the file holding only what had been
-   written so far: outcome [Damaged].  Offsets are indices (nat); bytes are N.
+   written so far: outcome [Damaged].  The repaired version builds the text
+   in memory, writes it after the loop ([Untouched] on a panic) and skips
+   patches that overlap: which version is there is read from the source.  Offsets are indices (nat); bytes are N.
    Which of these facts are read from the source on every run: Gen/FixApply.v. *)
 From Coq Require Import List NArith Bool Arith.
 From YV Require Import Gen.FixApply.
@@ -48,15 +52,28 @@ Inductive outcome :=
 | Damaged (written : list N)   (* the tool panicked; the file holds [written] *)
 | Untouched.                   (* the tool panicked before truncating the file *)
 
+(* the guard of the repaired loop: the patch overlaps what was already
+   replaced, is malformed, or leaves the file *)
+Definition skip_patch (p : patch) (pos len : nat) : bool :=
+  Nat.ltb (p_start p) pos || Nat.ltb (p_end p) (p_start p) || Nat.ltb len (p_end p).
+
 Fixpoint apply_loop (ps : list patch) (input : list N) (pos : nat) (written : list N) : outcome :=
   match ps with
   | [] =>
       if Nat.leb pos (length input) then Ok (written ++ skipn pos input)
       else if truncates_before_writing then Damaged written else Untouched
   | p :: ps' =>
-      if Nat.leb pos (p_start p) && Nat.leb (p_start p) (length input)
+      if skips_overlapping && skip_patch p pos (length input) then apply_loop ps' input pos written
+      else if Nat.leb pos (p_start p) && Nat.leb (p_start p) (length input)
       then apply_loop ps' input (p_end p) (written ++ slice input pos (p_start p) ++ p_repl p)
       else if truncates_before_writing then Damaged written else Untouched
+  end.
+
+(* the patches the repaired loop applies *)
+Fixpoint keep (pos len : nat) (ps : list patch) : list patch :=
+  match ps with
+  | [] => []
+  | p :: ps' => if skip_patch p pos len then keep pos len ps' else p :: keep (p_end p) len ps'
   end.
 
 Definition apply (ps : list patch) (s : list N) : outcome :=
